@@ -47,6 +47,9 @@ STRUCT = ["0", "1", "4094", "4095", "65535", "65536", "99999999999999999999", "0
           "000000000000000000000000000004094", "12a", "a12", "1.5", "1e3", "1-2 ", " 1-2", "1 -2", "1- 2",
           "1 - 2", "1  -  2", "1-2-", "-1-2", "1--2", "1\u20132", "1\u22122", "2-1", "2-2", "3-2", "0-0", "0-1",
           "1-0", "4094-1", "4000-4094", "4000-4095", "4095-4096", "65535-65536", "+1-2", "1-+2", "1-2a", "a-2"]
+# values that wrap to 1..4094 when narrowed to 16 / 32 / 64 bits before the range checks (seeded C14_q1)
+WRAP = ["65537", "65636", "69630", "69631", "65636-65640", "100-65736", "65636-200", "131172", "4294967396",
+        "4294967297-4294967298", "18446744073709551716", "18446744073709551617", "-65436", "+100", "+1-+2"]
 CV_STRUCT = ["any", "ANY", "Any", "aNy", "anY", "aNY", "AnY", "ANy", " any ", "anyx", "xany", "an", "ny", "a n y",
              "a\u200bny", "", " ", "\t\n\v\f\r ", "\u0085\u00a0\u1680\u2000\u200a\u2028\u2029\u202f\u205f\u3000",
              "\u200b", "\ufeff", "\u180e", "0", "1", "4094", "4095", "100", "0100", "\tany\n", "\u00a0any",
@@ -107,7 +110,7 @@ def gen_cases(rng, tier, budget):
             s = "".join(t)
             cases.append("parse " + enc(s))
             cases.append("cvlan " + enc(s))
-    for s in STRUCT + CV_STRUCT:
+    for s in STRUCT + CV_STRUCT + WRAP:
         cases.append("parse " + enc(s))
         cases.append("cvlan " + enc(s))
     # every space class and every near-miss, in every position of both grammars
